@@ -85,6 +85,7 @@ def is_symbolic(x):
     return isinstance(x, (SBool, SInt, SReal, SBytes, SStr, SOpaque))
 
 
+
 def mk_bool(t):
     """Return a Python bool when the term is literally true/false."""
     t = z3.simplify(t)
@@ -808,6 +809,8 @@ class SBytes(object):
     def of(x):
         if isinstance(x, SBytes):
             return x
+        if isinstance(x, SByteArray):
+            return x.data
         if isinstance(x, (bytes, bytearray)):
             return SBytes([bytes(x)])
         raise Unsupported('cannot convert %r to bytes' % (type(x),))
@@ -1035,3 +1038,38 @@ class SymSet(object):
 
     def __repr__(self):
         return 'SymSet(%r)' % (self.elems,)
+
+
+class SByteArray(object):
+    """bytearray with symbolic content: append / extend / += / len / bytes()."""
+
+    def __init__(self, data=None):
+        self.data = SBytes.of(data) if data is not None else SBytes()
+
+    def append(self, x):
+        if isinstance(x, SInt):
+            E = engine()
+            E.side_obligation('byte-range', z3.And((x >= 0).t if isinstance(x >= 0, SBool) else z3.BoolVal(bool(x >= 0)),
+                                                   (x <= 255).t if isinstance(x <= 255, SBool) else z3.BoolVal(bool(x <= 255))))
+            self.data = self.data + SBytes([('byte', int_to_byte(x))])
+        elif isinstance(x, int):
+            if not 0 <= x <= 255:
+                raise ValueError('byte must be in range(0, 256)')
+            self.data = self.data + SBytes([bytes([x])])
+        else:
+            raise TypeError('an integer is required')
+
+    def extend(self, other):
+        self.data = self.data + SBytes.of(other)
+
+    def __iadd__(self, other):
+        self.extend(other)
+        return self
+
+    def __sym_len__(self):
+        return self.data.length()
+
+    def __eq__(self, o):
+        return self.data == SBytes.of(o)
+
+    __hash__ = None
